@@ -292,6 +292,35 @@ def project(nf, reg):
     return tree
 
 
+def expected_shallow(state, conc):
+    """Per object number: what shallow() must report (same fields)."""
+    objs = {o["id"]: o for o in state["objs"]}
+    out = {}
+    for o in state["objs"]:
+        k = o["kind"]
+        d = {}
+        if k == "feature":
+            d["link_type"] = LINKTYPES[o["typ"]]
+        else:
+            d["name"] = conc.name(o["name"])
+            d["definition"] = conc.value(o["def"])
+            if k != "property":
+                d["type"] = conc.typ(o["typ"])
+        if k == "array":
+            d["data"] = conc.data(o["dtok"])
+        if k == "property":
+            d["values"] = conc.pvalues(o["dtok"])
+        for ln in LISTS.get(k, ()):
+            d["links:" + ln] = ["e%d" % objs[x]["eid"] for x in o["ls"][ln] if x in objs]
+        for cname, ckind in CONTAINERS.get(k, ()):
+            d[cname] = ["e%d" % c["eid"] for c in state["objs"] if c["owner"] == o["id"] and c["kind"] == ckind]
+        if k in HAS_META:
+            m = o["rl"]["metadata"]
+            d["metadata"] = None if not m or m not in objs else "e%d" % objs[m]["eid"]
+        out[o["id"]] = d
+    return out
+
+
 def diff(exp, act, path="", out=None, limit=6):
     """List of (path, expected, actual) for the first differences."""
     if out is None:
@@ -439,6 +468,59 @@ class Session:
         self.uuid[num] = handle.id
         self.eidnum[num] = num if eid is None else eid
         self.reg.bind(handle.id, "e%d" % self.eidnum[num])
+        # a second long-lived handle, looked up right away and kept for the rest of the session
+        try:
+            self.handles_b[num] = self.obj(num, fresh=True)
+        except Exception:  # noqa
+            pass
+
+    def touch(self):
+        """
+        What a long-running client does between calls: every long-lived handle looks at its containers and link
+        lists (length, iteration, membership by id), so whatever the library caches on handle objects is warm.
+        """
+        for store in (self.handles, self.handles_b):
+            for num, h in list(store.items()):
+                kind = self.meta[num][0]
+                names = [c for c, _ in CONTAINERS.get(kind, ())] + list(LISTS.get(kind, ()))
+                for cname in names:
+                    try:
+                        cont = getattr(h, cname)
+                        for m in cont:
+                            _ = m.id in cont
+                    except Exception:  # noqa
+                        pass
+        try:
+            for cname in ("blocks", "sections"):
+                cont = getattr(self.nf, cname)
+                for m in cont:
+                    _ = m.id in cont
+        except Exception:  # noqa
+            pass
+
+    def shallow(self, num, h):
+        """What one handle reports about its own entity: attributes, link lists, role links, child names."""
+        kind = self.meta[num][0]
+        reg = self.reg
+        d = {}
+        if kind == "feature":
+            d["link_type"] = _safe(lambda: h.link_type.value)
+        else:
+            d["name"] = _safe(lambda: h.name)
+            d["definition"] = _safe(lambda: h.definition)
+            if kind != "property":
+                d["type"] = _safe(lambda: h.type)
+        if kind == "array":
+            d["data"] = _safe(lambda: _listify(h[:]))
+        if kind == "property":
+            d["values"] = _safe(lambda: [int(v) for v in h.values])
+        for ln in LISTS.get(kind, ()):
+            d["links:" + ln] = _safe(lambda ln=ln: [reg.token(m.id) for m in getattr(h, ln)])
+        for cname, _k in CONTAINERS.get(kind, ()):
+            d[cname] = _safe(lambda cname=cname: [reg.token(m.id) for m in getattr(h, cname)])
+        if kind in HAS_META:
+            d["metadata"] = _safe(lambda: None if h.metadata is None else reg.token(h.metadata.id))
+        return d
 
     def forget(self, alive):
         for num in list(self.handles):
